@@ -358,6 +358,42 @@ fn simplify(s: &Step) -> Vec<Step> {
                 out.push(Step::Threads { spec: crate::sched::ThreadSpec { sched: SchedKind::RoundRobin, ..spec.clone() } });
             }
         }
+        Step::Rotation { spec } => {
+            let with = |scripts: Vec<Vec<crate::rotate::ROp>>| Step::Rotation { spec: crate::rotate::RotationSpec { scripts, ..spec.clone() } };
+            if spec.scripts.len() > 1 {
+                for t in 0..spec.scripts.len() {
+                    let mut sc = spec.scripts.clone();
+                    sc.remove(t);
+                    out.push(with(sc));
+                }
+            }
+            for t in 0..spec.scripts.len() {
+                let len = spec.scripts[t].len();
+                if len > 1 {
+                    let mut a = spec.scripts.clone();
+                    a[t].truncate(len / 2);
+                    out.push(with(a));
+                    let mut c = spec.scripts.clone();
+                    c[t].drain(..len / 2);
+                    out.push(with(c));
+                }
+            }
+            for t in 0..spec.scripts.len() {
+                if spec.scripts[t].len() > 1 {
+                    for i in (0..spec.scripts[t].len()).rev() {
+                        let mut a = spec.scripts.clone();
+                        a[t].remove(i);
+                        out.push(with(a));
+                    }
+                }
+            }
+            if spec.fine {
+                out.push(Step::Rotation { spec: crate::rotate::RotationSpec { fine: false, ..spec.clone() } });
+            }
+            if !matches!(spec.sched, crate::sched::SchedKind::RoundRobin) {
+                out.push(Step::Rotation { spec: crate::rotate::RotationSpec { sched: crate::sched::SchedKind::RoundRobin, ..spec.clone() } });
+            }
+        }
         Step::History { node, op, count, tag } => {
             for c in [1u32, 2, 16, count / 2] {
                 if c < *count && c > 0 {
